@@ -1,5 +1,5 @@
 //! C09 - letter case, spacing, comments and line endings never change a program's meaning.
-//! Accepted and rejected programs x layout transformations (each at random subsets of the eligible
+//! Accepted and rejected programs (generated, one per statement kind with a layout rule of its own, repository programs) x layout transformations (each at random subsets of the eligible
 //! sites, and all at once). For every pair (original, transformed): the parse tree must be the same
 //! up to positions, the checker's verdict the same, the run-time behaviour the same; and - in Coq -
 //! the two texts must be in the same layout class of `Lex.Layout.canon` (for which the invariance
@@ -247,6 +247,29 @@ pub fn run(args: &Args) {
                 l = l
             ),
         ));
+    }
+    // one small program per statement kind whose layout has its own parser rule
+    for t in [
+        "DEFINT A-Z\nDEFSTR S\nx = 1.6\nsv = \"q\"\nPRINT x; sv\n",
+        "DEFLNG I-K, M\nDEFDBL D\nDEFSNG A-C\ni = 100000\nd = 0.5\nm = 3\nPRINT i; d; m\n",
+        "ON ERROR GOTO h\nN = 0\nX = 1 / N\nPRINT X\nEND\nh:\nN = 2\nRESUME\n",
+        "ON ERROR GOTO h\nX = 1 / N\nPRINT 5\nEND\nh:\nPRINT \"e\"\nRESUME NEXT\n",
+        "ON ERROR GOTO h\nX = 1 / N\nPRINT 5\nEND\nh:\nRESUME done\ndone:\nPRINT 6\n",
+        "ON ERROR RESUME NEXT\nX = 1 / N\nON ERROR GOTO 0\nPRINT 7\n",
+        "GOSUB r\nGOSUB r\nEND\nr:\nK = K + 1\nPRINT K\nRETURN\n",
+        "FOR I = 1 TO 5\nIF I = 3 THEN EXIT FOR\nPRINT I\nNEXT I\nDO\nJ = J + 1\nIF J > 2 THEN EXIT DO\nLOOP\nPRINT J\n",
+        "IF 1 < 2 THEN PRINT 1 ELSE PRINT 2\nIF 2 < 1 THEN PRINT 3 ELSE PRINT 4\n",
+        "SELECT CASE 5\nCASE 1, 2\nPRINT 1\nCASE IS > 4\nPRINT 2\nCASE 3 TO 4\nPRINT 3\nCASE ELSE\nPRINT 4\nEND SELECT\n",
+        "DIM A(3), B AS INTEGER, C$(2)\nCONST K = 2, L$ = \"q\"\nA(1) = K\nC$(1) = L$\nSWAP A(1), A(2)\nPRINT A(1); A(2); C$(1)\n",
+        "DATA 1, \"two\", 3\nREAD A, B$, C\nPRINT A; B$; C\nRESTORE\nREAD D\nPRINT D\n",
+        "TYPE P\nX AS INTEGER\nN AS STRING * 3\nEND TYPE\nDIM Q AS P\nQ.X = 4\nQ.N = \"ab\"\nPRINT Q.X; \"[\"; Q.N; \"]\"\n",
+        "DECLARE SUB S (A, B$)\nDECLARE FUNCTION F% (A%)\nS 1, \"x\"\nCALL S(2, \"y\")\nPRINT F%(3)\nEND\nSUB S (A, B$)\nPRINT A; B$\nEND SUB\nFUNCTION F% (A%)\nF% = A% * 2\nEND FUNCTION\n",
+        "SUB T STATIC\nN = N + 1\nPRINT N\nEND SUB\nT\nT\n",
+        "PRINT USING \"##.#\"; 2.5\nPRINT 1, 2; 3\nPRINT\nLPRINT 4\n",
+        "WHILE W < 2\nW = W + 1\nWEND\nDO WHILE V < 2\nV = V + 1\nLOOP\nDO\nU = U + 1\nLOOP UNTIL U >= 2\nPRINT W; V; U\n",
+        "X = -1\nY = NOT X\nZ = (X + 2) * -3\nPRINT X; Y; Z; 7 MOD 3; 2 ^ 0 + 1\n",
+    ] {
+        programs.push(("statement-kinds".into(), t.to_string()));
     }
     // rejected programs: one ill-formed line injected
     let n_rej = if args.thorough() { 120 } else { 40 };
